@@ -10,31 +10,41 @@ use serde::de::{self, DeserializeSeed, MapAccess, SeqAccess, Visitor};
 use serde::ser::{self, SerializeStruct, SerializeTuple};
 use serde::{Deserialize, Serialize};
 
+/// Every harness static carries a unique tag: Kani resolves a *constant* whose bytes equal a
+/// static's initial bytes to that static (rustc interns allocations by content), so writing to a
+/// `static mut FLAG: bool = false` silently changed constants such as `DR::_0` in the code under
+/// test (found on macs_r0_linkadr2, see DESIGN 9.4).  Unique initial content rules this out.
+#[repr(C)]
+pub(crate) struct Uq<T> {
+    pub magic: u64,
+    pub v: T,
+}
+
 const CAP: usize = 96;
-static mut STREAM: [u64; CAP] = [0; CAP];
-static mut WPOS: usize = 0;
-static mut RPOS: usize = 0;
+static mut STREAM: Uq<[u64; CAP]> = Uq { magic: 0x6C727600F27E373C, v: [0; CAP] };
+static mut WPOS: Uq<usize> = Uq { magic: 0x6C727600BD23F8B9, v: 0 };
+static mut RPOS: Uq<usize> = Uq { magic: 0x6C7276008AFD088B, v: 0 };
 /// key script for the outer Session struct (indices into its `fields`), and its length
-static mut SCRIPT: [usize; 10] = [0; 10];
-static mut SCRIPT_LEN: usize = 0;
+static mut SCRIPT: Uq<[usize; 10]> = Uq { magic: 0x6C7276001E160E1A, v: [0; 10] };
+static mut SCRIPT_LEN: Uq<usize> = Uq { magic: 0x6C727600046D71DE, v: 0 };
 /// same for the nested Uplink struct
-static mut USCRIPT: [usize; 5] = [0; 5];
-static mut USCRIPT_LEN: usize = 0;
+static mut USCRIPT: Uq<[usize; 5]> = Uq { magic: 0x6C7276008E7D91E2, v: [0; 5] };
+static mut USCRIPT_LEN: Uq<usize> = Uq { magic: 0x6C727600C7F69173, v: 0 };
 /// an unknown key is presented at this position of the outer script (usize::MAX = never)
-static mut UNKNOWN_AT: usize = usize::MAX;
+static mut UNKNOWN_AT: Uq<usize> = Uq { magic: 0x6C72760084842973, v: usize::MAX };
 
 fn push(v: u64) {
     unsafe {
-        assert!(WPOS < CAP, "serde model: stream full");
-        STREAM[WPOS] = v;
-        WPOS += 1;
+        assert!(WPOS.v < CAP, "serde model: stream full");
+        STREAM.v[WPOS.v] = v;
+        WPOS.v += 1;
     }
 }
 fn pop() -> u64 {
     unsafe {
-        assert!(RPOS < CAP, "serde model: stream exhausted");
-        let v = STREAM[RPOS];
-        RPOS += 1;
+        assert!(RPOS.v < CAP, "serde model: stream exhausted");
+        let v = STREAM.v[RPOS.v];
+        RPOS.v += 1;
         v
     }
 }
@@ -193,14 +203,14 @@ impl MapAccess<'static> for Map {
     type Error = E;
     fn next_key_seed<K: DeserializeSeed<'static>>(&mut self, seed: K) -> Result<Option<K::Value>, E> {
         unsafe {
-            let (len, unknown) = if self.outer { (SCRIPT_LEN, UNKNOWN_AT) } else { (USCRIPT_LEN, usize::MAX) };
+            let (len, unknown) = if self.outer { (SCRIPT_LEN.v, UNKNOWN_AT.v) } else { (USCRIPT_LEN.v, usize::MAX) };
             if self.pos >= len {
                 return Ok(None);
             }
             let name = if self.pos == unknown {
                 "unknown_field"
             } else {
-                let idx = if self.outer { SCRIPT[self.pos] } else { USCRIPT[self.pos] };
+                let idx = if self.outer { SCRIPT.v[self.pos] } else { USCRIPT.v[self.pos] };
                 self.fields[idx]
             };
             self.pos += 1;
@@ -216,18 +226,18 @@ fn set_scripts(outer: &[usize], inner: &[usize], unknown_at: usize) {
     unsafe {
         let mut i = 0;
         while i < outer.len() {
-            SCRIPT[i] = outer[i];
+            SCRIPT.v[i] = outer[i];
             i += 1;
         }
-        SCRIPT_LEN = outer.len();
+        SCRIPT_LEN.v = outer.len();
         let mut i = 0;
         while i < inner.len() {
-            USCRIPT[i] = inner[i];
+            USCRIPT.v[i] = inner[i];
             i += 1;
         }
-        USCRIPT_LEN = inner.len();
-        UNKNOWN_AT = unknown_at;
-        RPOS = 0;
+        USCRIPT_LEN.v = inner.len();
+        UNKNOWN_AT.v = unknown_at;
+        RPOS.v = 0;
     }
 }
 
@@ -261,15 +271,15 @@ fn session_roundtrip_empty() {
 
 fn roundtrip(cids: &[u8]) {
     let s = any_session(cids);
-    unsafe { WPOS = 0; }
+    unsafe { WPOS.v = 0; }
     let r = s.serialize(S);
     assert!(r.is_ok(), "C20: serialising a session must succeed");
-    let written = unsafe { WPOS };
+    let written = unsafe { WPOS.v };
     set_scripts(&DECL, &UDECL, usize::MAX);
     match Session::deserialize(D) {
         Ok(t) => {
             assert!(session_same(&s, &t), "C20: the restored session must equal the original in every field");
-            assert!(unsafe { RPOS } == written, "C20: the serialised form is consumed exactly");
+            assert!(unsafe { RPOS.v } == written, "C20: the serialised form is consumed exactly");
             kani::cover!(t.fcnt_down().is_none(), "restored 'no downlink yet'");
             kani::cover!(t.fcnt_up == u32::MAX, "restored counter at 2^32-1");
         }
@@ -280,7 +290,7 @@ fn roundtrip(cids: &[u8]) {
 /// malformed input: arbitrary value stream, scripted key structure
 fn malformed(outer: &[usize], inner: &[usize], unknown_at: usize) {
     let vals: [u64; CAP] = kani::any();
-    unsafe { STREAM = vals; }
+    unsafe { STREAM.v = vals; }
     set_scripts(outer, inner, unknown_at);
     match Session::deserialize(D) {
         Err(_) => {
